@@ -224,4 +224,339 @@ theorem mp_splitAt_first (c : UInt8) (pt : Bytes) (hc : c ∉ pt) :
     rw [List.cons_append, List.cons_append, mp_splitAt_neg hnp, ih rest hno']
     rfl
 
+/-! ### the round trip through the independent decoder -/
+
+/-! #### constants -/
+
+theorem mp_c_cd : str "\r\nContent-Disposition: form-data; name=\"" =
+    [13, 10] ++ (str "Content-Disposition:" ++ 32 :: str "form-data; name=\"") := by decide +kernel
+theorem mp_c_ct : str "\r\nContent-Type: " = [13, 10] ++ (str "Content-Type:" ++ [32]) := by
+  decide +kernel
+theorem mp_c_q4 : str "\"\r\n\r\n" = [34, 13, 10, 13, 10] := by decide +kernel
+theorem mp_c_q : str "\"" = [34] := by decide +kernel
+theorem mp_c_4 : str "\r\n\r\n" = [13, 10, 13, 10] := by decide +kernel
+theorem mp_c_fd_head : str "form-data; name=\"" = 102 :: str "orm-data; name=\"" := by decide +kernel
+theorem mp_c_fn_head : str "; filename=\"" = 59 :: str " filename=\"" := by decide +kernel
+theorem mp_c_cdh_len : (str "Content-Disposition:").length = 20 := by decide +kernel
+theorem mp_c_cth_len : (str "Content-Type:").length = 13 := by decide +kernel
+theorem mp_c_cdn_len : (str "content-disposition").length = 19 := by decide +kernel
+theorem mp_c_ctn_len : (str "content-type").length = 12 := by decide +kernel
+theorem mp_c_cdh_lower : lowerBytes (str "Content-Disposition:") = str "content-disposition" ++ [58] := by
+  decide +kernel
+theorem mp_c_cth_lower : lowerBytes (str "Content-Type:") = str "content-type" ++ [58] := by
+  decide +kernel
+theorem mp_c_cdh_not_ct : ¬ lowerBytes ((str "Content-Disposition:").take 13) = str "content-type" ++ [58] := by
+  decide +kernel
+theorem mp_c_cdh_no13 : (13 : UInt8) ∉ str "Content-Disposition:" := by decide +kernel
+theorem mp_c_cth_no13 : (13 : UInt8) ∉ str "Content-Type:" := by decide +kernel
+theorem mp_c_fd_no13 : (13 : UInt8) ∉ str "form-data; name=\"" := by decide +kernel
+theorem mp_c_fn_no13 : (13 : UInt8) ∉ str "; filename=\"" := by decide +kernel
+
+/-! #### the canonical encoding of a part -/
+
+def mp_cdValue (p : Part) : Bytes :=
+  str "form-data; name=\"" ++ p.name ++ [34] ++
+    (match p.filename with
+     | some fn => str "; filename=\"" ++ fn ++ [34]
+     | none => [])
+
+def mp_cdLine (p : Part) : Bytes := str "Content-Disposition:" ++ 32 :: mp_cdValue p
+
+def mp_ctLine (m : Bytes) : Bytes := str "Content-Type:" ++ 32 :: m
+
+def mp_lines (p : Part) : List Bytes :=
+  mp_cdLine p :: (match p.contentType with
+    | some m => [mp_ctLine m]
+    | none => [])
+
+/-- what follows the delimiter: CRLF, the header lines, the empty line, the data -/
+def mp_block (p : Part) : Bytes :=
+  [13, 10] ++ ((mp_lines p).map (· ++ [13, 10])).flatten ++ [13, 10] ++ p.data
+
+/-- what follows the first delimiter of a body carrying the parts `ps` -/
+def mp_tail (delim : Bytes) : List Part → Bytes
+  | [] => [45, 45]
+  | p :: ps => mp_block p ++ delim ++ mp_tail delim ps
+
+theorem mp_text_block (b : Bytes) (t : Bytes × Bytes) :
+    mpText b t = mpDelim b ++ mp_block ⟨t.1, none, none, t.2⟩ := by
+  simp [mpText, mp_block, mp_lines, mp_cdLine, mp_cdValue, mp_c_cd, mp_c_q4]
+
+theorem mp_file_block (b : Bytes) (f : MFile) :
+    mpFileHeader b f ++ f.data =
+      mpDelim b ++ mp_block ⟨f.name, f.filename, some (f.mime.getD (str "application/octet-stream")), f.data⟩ := by
+  cases hf : f.filename <;>
+    simp [mpFileHeader, mp_block, mp_lines, mp_cdLine, mp_cdValue, mp_ctLine, mp_c_cd, mp_c_ct,
+      mp_c_4, mp_c_q, hf]
+
+theorem mp_body_tail (b : Bytes) (texts : List (Bytes × Bytes)) (files : List MFile) :
+    mpBody b ⟨texts, files⟩ = mpDelim b ++ mp_tail (mpDelim b)
+      (texts.map (fun t => (⟨t.1, none, none, t.2⟩ : Part)) ++
+       files.reverse.map (fun f =>
+        (⟨f.name, f.filename, some (f.mime.getD (str "application/octet-stream")), f.data⟩ : Part))) := by
+  have key : ∀ (ps : List Part) (rest : Bytes),
+      (ps.map (fun p => mpDelim b ++ mp_block p)).flatten ++ mpDelim b ++ rest =
+        mpDelim b ++ (ps.foldr (fun p acc => mp_block p ++ mpDelim b ++ acc) rest) := by
+    intro ps rest
+    induction ps with
+    | nil => simp
+    | cons p ps ih =>
+      simp only [List.map_cons, List.flatten_cons, List.foldr_cons, List.append_assoc] at ih ⊢
+      rw [ih]
+  have tail_foldr : ∀ ps : List Part,
+      mp_tail (mpDelim b) ps = ps.foldr (fun p acc => mp_block p ++ mpDelim b ++ acc) [45, 45] := by
+    intro ps
+    induction ps with
+    | nil => rfl
+    | cons p ps ih => simp [mp_tail, ih]
+  rw [tail_foldr, ← key]
+  simp only [mpBody, List.map_append, List.flatten_append, List.map_map, List.append_assoc]
+  congr 1
+  · congr 1
+    apply List.map_congr_left
+    intro t _
+    exact mp_text_block b t
+  · congr 1
+    congr 1
+    apply List.map_congr_left
+    intro f _
+    exact mp_file_block b f
+
+/-! #### line splitting -/
+
+theorem mp_mem_of_occursIn {c : UInt8} {pt l : Bytes} (h : occursIn (c :: pt) l = true) : c ∈ l := by
+  obtain ⟨a, d, rfl⟩ := (mp_occursIn_iff _ _).mp h
+  simp
+
+theorem mp_splitAt_crlf (l r : Bytes) (h : (13 : UInt8) ∉ l) :
+    mpSplitAt [13, 10] (l ++ 13 :: 10 :: r) = some (l, r) := by
+  have hno : occursIn [13, 10] l = false := by
+    cases ho : occursIn [13, 10] l with
+    | false => rfl
+    | true => exact absurd (mp_mem_of_occursIn ho) h
+  have := mp_splitAt_first 13 [10] (by decide) l r hno
+  simpa using this
+
+theorem mp_headerLines_join : ∀ (lines : List Bytes) (fuel : Nat) (rest : Bytes),
+    (∀ l ∈ lines, l ≠ [] ∧ (13 : UInt8) ∉ l) → lines.length + 1 ≤ fuel →
+    mpHeaderLines fuel ((lines.map (· ++ [13, 10])).flatten ++ [13, 10] ++ rest) = some (lines, rest) := by
+  intro lines
+  induction lines with
+  | nil =>
+    intro fuel rest _ hf
+    obtain ⟨f, rfl⟩ : ∃ f, fuel = f + 1 := ⟨fuel - 1, by omega⟩
+    have := mp_splitAt_crlf [] rest (by simp)
+    simp only [List.nil_append] at this
+    simp [mpHeaderLines, this]
+  | cons l ls ih =>
+    intro fuel rest hl hf
+    obtain ⟨f, rfl⟩ : ∃ f, fuel = f + 1 := ⟨fuel - 1, by omega⟩
+    have h1 := hl l (by simp)
+    have e : ((l :: ls).map (· ++ [13, 10])).flatten ++ [13, 10] ++ rest =
+        l ++ 13 :: 10 :: ((ls.map (· ++ [13, 10])).flatten ++ [13, 10] ++ rest) := by simp
+    rw [e]
+    unfold mpHeaderLines
+    rw [mp_splitAt_crlf l _ h1.2]
+    simp only [h1.1, if_false]
+    rw [ih f rest (fun x hx => hl x (by simp [hx])) (by simp at hf; omega)]
+    rfl
+
+/-! #### header fields -/
+
+theorem mp_dropWhile_q : ∀ (n r : Bytes), (34 : UInt8) ∉ n →
+    (n ++ 34 :: r).dropWhile (· != 34) = 34 :: r ∧ (n ++ 34 :: r).takeWhile (· != 34) = n := by
+  intro n
+  induction n with
+  | nil => intro r _; simp
+  | cons x xs ih =>
+    intro r h
+    have hx : ¬ x = 34 := fun e => h (by simp [e])
+    have := ih r (fun e => h (by simp [e]))
+    simp [hx, this.1, this.2]
+
+theorem mp_quoted (n r : Bytes) (h : (34 : UInt8) ∉ n) : mpQuoted (n ++ 34 :: r) = some (n, r) := by
+  unfold mpQuoted
+  rw [(mp_dropWhile_q n r h).1, (mp_dropWhile_q n r h).2]
+
+theorem mp_expect (p s : Bytes) : mpExpect p (p ++ s) = some s := by
+  unfold mpExpect
+  have : p.isPrefixOf (p ++ s) = true := List.isPrefixOf_iff_prefix.mpr ⟨s, rfl⟩
+  simp [this]
+
+theorem mp_disposition (p : Part) (hn : (34 : UInt8) ∉ p.name)
+    (hf : ∀ fn, p.filename = some fn → (34 : UInt8) ∉ fn) :
+    mpDisposition (mp_cdValue p) = some (p.name, p.filename) := by
+  unfold mpDisposition mp_cdValue
+  cases hfn : p.filename with
+  | none =>
+    have e : str "form-data; name=\"" ++ p.name ++ [34] ++ [] =
+        str "form-data; name=\"" ++ (p.name ++ 34 :: []) := by simp
+    simp only [e, mp_expect, mp_quoted _ _ hn, if_true]
+  | some fn =>
+    have e : str "form-data; name=\"" ++ p.name ++ [34] ++ (str "; filename=\"" ++ fn ++ [34]) =
+        str "form-data; name=\"" ++ (p.name ++ 34 :: (str "; filename=\"" ++ (fn ++ 34 :: []))) := by simp
+    have hne : ¬ (str "; filename=\"" ++ (fn ++ 34 :: [])) = [] := by rw [mp_c_fn_head]; simp
+    simp only [e, mp_expect, mp_quoted _ _ hn, hne, if_false, mp_quoted _ _ (hf fn hfn), if_true]
+
+theorem mp_dropWhile_ows (m : Bytes) (h1 : m.head? ≠ some 32) (h2 : m.head? ≠ some 9) :
+    (32 :: m).dropWhile (fun c => c == 32 || c == 9) = m := by
+  cases m with
+  | nil => simp
+  | cons x xs =>
+    have hx1 : ¬ x = 32 := fun e => h1 (by simp [e])
+    have hx2 : ¬ x = 9 := fun e => h2 (by simp [e])
+    simp [hx1, hx2]
+
+theorem mp_fieldValue_cd (p : Part) :
+    mpFieldValue (str "content-disposition") (mp_cdLine p) = some (mp_cdValue p) := by
+  unfold mpFieldValue mp_cdLine
+  rw [mp_c_cdn_len]
+  have ht : (str "Content-Disposition:" ++ 32 :: mp_cdValue p).take (19 + 1) = str "Content-Disposition:" :=
+    List.take_left' mp_c_cdh_len
+  have hd : (str "Content-Disposition:" ++ 32 :: mp_cdValue p).drop (19 + 1) = 32 :: mp_cdValue p :=
+    List.drop_left' mp_c_cdh_len
+  rw [ht, hd, mp_c_cdh_lower, if_pos rfl, mp_dropWhile_ows]
+  · simp [mp_cdValue, mp_c_fd_head]
+  · simp [mp_cdValue, mp_c_fd_head]
+
+theorem mp_fieldValue_ct_cd (p : Part) : mpFieldValue (str "content-type") (mp_cdLine p) = none := by
+  unfold mpFieldValue mp_cdLine
+  rw [mp_c_ctn_len]
+  have ht : (str "Content-Disposition:" ++ 32 :: mp_cdValue p).take (12 + 1) =
+      (str "Content-Disposition:").take 13 :=
+    List.take_append_of_le_length (by rw [mp_c_cdh_len]; omega)
+  rw [ht, if_neg mp_c_cdh_not_ct]
+
+theorem mp_fieldValue_ct (m : Bytes) (h1 : m.head? ≠ some 32) (h2 : m.head? ≠ some 9) :
+    mpFieldValue (str "content-type") (mp_ctLine m) = some m := by
+  unfold mpFieldValue mp_ctLine
+  rw [mp_c_ctn_len]
+  have ht : (str "Content-Type:" ++ 32 :: m).take (12 + 1) = str "Content-Type:" :=
+    List.take_left' mp_c_cth_len
+  have hd : (str "Content-Type:" ++ 32 :: m).drop (12 + 1) = 32 :: m := List.drop_left' mp_c_cth_len
+  rw [ht, hd, mp_c_cth_lower, if_pos rfl, mp_dropWhile_ows m h1 h2]
+
+/-! #### one part, all parts -/
+
+/-- what the round trip needs of a part (and of the boundary: no CR in it) -/
+structure mp_Good (b : Bytes) (p : Part) : Prop where
+  name : (34 : UInt8) ∉ p.name ∧ (13 : UInt8) ∉ p.name
+  fn : ∀ fn, p.filename = some fn → (34 : UInt8) ∉ fn ∧ (13 : UInt8) ∉ fn
+  ct : ∀ m, p.contentType = some m → (13 : UInt8) ∉ m ∧ m.head? ≠ some 32 ∧ m.head? ≠ some 9
+  data : occursIn (mpDelim b) p.data = false
+
+theorem mp_lines_ok (b : Bytes) (p : Part) (hg : mp_Good b p) :
+    ∀ l ∈ mp_lines p, l ≠ [] ∧ (13 : UInt8) ∉ l := by
+  have hcd : mp_cdLine p ≠ [] ∧ (13 : UInt8) ∉ mp_cdLine p := by
+    refine ⟨?_, ?_⟩
+    · intro h
+      have := congrArg List.length h
+      simp [mp_cdLine] at this
+    · unfold mp_cdLine mp_cdValue
+      have h1 := mp_c_cdh_no13
+      have h2 := mp_c_fd_no13
+      have h3 := hg.name.2
+      cases hfn : p.filename with
+      | none => simp [h1, h2, h3]
+      | some fn =>
+        have h4 := (hg.fn fn hfn).2
+        have h5 := mp_c_fn_no13
+        simp [h1, h2, h3, h4, h5]
+  intro l hl
+  unfold mp_lines at hl
+  cases hct : p.contentType with
+  | none =>
+    rw [hct] at hl
+    simp only [List.mem_cons, List.not_mem_nil, or_false] at hl
+    subst hl; exact hcd
+  | some m =>
+    rw [hct] at hl
+    simp only [List.mem_cons, List.not_mem_nil, or_false] at hl
+    rcases hl with rfl | rfl
+    · exact hcd
+    · refine ⟨?_, ?_⟩
+      · intro h
+        have := congrArg List.length h
+        simp [mp_ctLine] at this
+      · have h1 := mp_c_cth_no13
+        have h2 := (hg.ct m hct).1
+        simp [mp_ctLine, h1, h2]
+
+theorem mp_field_cd (p : Part) : mpField (str "content-disposition") (mp_lines p) = some (mp_cdValue p) := by
+  simp [mpField, mp_lines, mp_fieldValue_cd]
+
+theorem mp_field_ct (b : Bytes) (p : Part) (hg : mp_Good b p) :
+    mpField (str "content-type") (mp_lines p) = p.contentType := by
+  unfold mpField mp_lines
+  cases hct : p.contentType with
+  | none => simp [mp_fieldValue_ct_cd]
+  | some m =>
+    have h := hg.ct m hct
+    simp [mp_fieldValue_ct_cd, mp_fieldValue_ct m h.2.1 h.2.2]
+
+theorem mp_delim_cons (b : Bytes) : mpDelim b = 13 :: ([10, 45, 45] ++ b) := rfl
+
+theorem mp_tail_length (delim : Bytes) : ∀ ps : List Part, ps.length + 2 ≤ (mp_tail delim ps).length := by
+  intro ps
+  induction ps with
+  | nil => simp [mp_tail]
+  | cons p ps ih => simp [mp_tail, mp_block]; omega
+
+theorem mp_parts_tail (b : Bytes) (hb : (13 : UInt8) ∉ b) : ∀ (ps : List Part) (fuel : Nat),
+    (∀ p ∈ ps, mp_Good b p) → ps.length + 1 ≤ fuel →
+    mpParts (mpDelim b) fuel (mp_tail (mpDelim b) ps) = some ps := by
+  intro ps
+  induction ps with
+  | nil =>
+    intro fuel _ hf
+    obtain ⟨f, rfl⟩ : ∃ f, fuel = f + 1 := ⟨fuel - 1, by omega⟩
+    simp [mpParts, mp_tail]
+  | cons p ps ih =>
+    intro fuel hg hf
+    obtain ⟨f, rfl⟩ : ∃ f, fuel = f + 1 := ⟨fuel - 1, by omega⟩
+    have hgp := hg p (by simp)
+    -- shape of the input
+    have e : mp_tail (mpDelim b) (p :: ps) =
+        13 :: 10 :: (((mp_lines p).map (· ++ [13, 10])).flatten ++ [13, 10] ++
+          (p.data ++ mpDelim b ++ mp_tail (mpDelim b) ps)) := by
+      simp [mp_tail, mp_block]
+    have hlen : (mp_lines p).length + 1 ≤ (mp_tail (mpDelim b) (p :: ps)).length := by
+      have h3 : (mp_lines p).length ≤ 2 := by
+        unfold mp_lines; cases p.contentType <;> simp
+      have hcd : 20 ≤ (mp_cdLine p).length := by simp [mp_cdLine, mp_c_cdh_len]
+      have : (mp_cdLine p).length ≤ (((mp_lines p).map (· ++ [13, 10])).flatten).length := by
+        simp [mp_lines]
+      rw [e]; simp only [List.length_cons, List.length_append]; omega
+    have hlines := mp_headerLines_join (mp_lines p) (mp_tail (mpDelim b) (p :: ps)).length
+      (p.data ++ mpDelim b ++ mp_tail (mpDelim b) ps) (mp_lines_ok b p hgp) hlen
+    have hdata : mpSplitAt (mpDelim b) (p.data ++ mpDelim b ++ mp_tail (mpDelim b) ps) =
+        some (p.data, mp_tail (mpDelim b) ps) := by
+      rw [mp_delim_cons]
+      apply mp_splitAt_first
+      · simp [hb]
+      · rw [← mp_delim_cons]; exact hgp.data
+    have hrec := ih f (fun q hq => hg q (by simp [hq])) (by simp at hf; omega)
+    have ht1 : (mp_tail (mpDelim b) (p :: ps)).take 2 = [13, 10] := by rw [e]; rfl
+    have hd2 : (mp_tail (mpDelim b) (p :: ps)).drop 2 =
+        ((mp_lines p).map (· ++ [13, 10])).flatten ++ [13, 10] ++
+          (p.data ++ mpDelim b ++ mp_tail (mpDelim b) ps) := by rw [e]; rfl
+    unfold mpParts
+    rw [ht1, hd2, hlines]
+    have hne : ¬ ([13, 10] : Bytes) = [45, 45] := by decide
+    simp only [hne, if_false, if_true, mp_field_cd,
+      Option.bind_some, mp_disposition p hgp.name.1 (fun fn h => (hgp.fn fn h).1), hdata, hrec,
+      Option.map_some, mp_field_ct b p hgp]
+
+theorem mp_decode_tail (b : Bytes) (hb : (13 : UInt8) ∉ b) (ps : List Part)
+    (hg : ∀ p ∈ ps, mp_Good b p) :
+    decodeMultipart b (mpDelim b ++ mp_tail (mpDelim b) ps) = some ps := by
+  unfold decodeMultipart
+  have e : ([13, 10] ++ ([45, 45] ++ b) : Bytes) = mpDelim b := rfl
+  have hp : (mpDelim b).isPrefixOf (mpDelim b ++ mp_tail (mpDelim b) ps) = true :=
+    List.isPrefixOf_iff_prefix.mpr ⟨_, rfl⟩
+  simp only [e, hp, if_true, List.drop_left]
+  apply mp_parts_tail b hb ps _ hg
+  have := mp_tail_length (mpDelim b) ps
+  simp only [List.length_append]; omega
+
 end Atto
